@@ -22,6 +22,7 @@ TInit == Init /\ tid \in 1..Len(Traces) /\ l = 1 /\ TLCSet(tid, 1)
 PostMatches == /\ \A p \in Prims : ver'[p] = Ev.ver[p]
                /\ \A p \in Prims : npaths'[p] = Ev.npaths[p]
                /\ cver'[Ev.d] = Ev.cv
+               /\ lver'[Ev.d] = Ev.lv
                /\ \A h \in Hedgers : pver'[h] = Ev.pvs[h]
 Step(A) == l <= Len(Tr) /\ A /\ PostMatches /\ l' = l + 1 /\ tid' = tid
 
@@ -31,6 +32,7 @@ TNext ==
   \/ Step(Ev.op \in {"ComputeHedge", "ComputePortfolio", "ComputePL"} /\ Compute(Ev.op, Ev.h, Ev.d, Ev.res))
   \/ Step(Ev.op \in {"ComputeLoss", "Price"} /\ SimCompute(Ev.op, Ev.h, Ev.d, Ev.n, Ev.ver[UL[Ev.d]]))
   \/ Step(Ev.op = "AddClause" /\ AddClause(Ev.d))
+  \/ Step(Ev.op = "Relist" /\ Relist(Ev.d))
   \/ Step(Ev.op = "Fit" /\ Fit(Ev.h, Ev.d, Ev.n, Ev.ver[UL[Ev.d]], Ev.pvs[Ev.h]))
 TSpec == TInit /\ [][TNext]_tvars
 
